@@ -4,7 +4,9 @@ from .util import call
 
 ID = 'C03'
 LEAN_MODULE = 'KernProofs.C03'
-THEOREMS = ['KM.C03.elemOut_eq', 'KM.C03.strip_noSep', 'KM.C03.strip_append', 'KM.C03.strip_joinSep_tok', 'KM.C03.strip_joinSep_dec', 'KM.C03.mem_addDecs', 'KM.C03.addDecs_acc_subset', 'KM.C03.mem_addDecs_of_mem', 'KM.C03.nodup_addDecs', 'KM.C03.sorted_decs', 'KM.C03.durSubs_flat', 'KM.C03.durSubs_ok', 'KM.C03.pdOf_sorted', 'KM.C03.pdOf_flat', 'KM.C03.allF_true', 'KM.C03.filter_allF', 'KM.C03.sigs_ok', 'KM.C03.pd_encs_ok', 'KM.C03.strip_withDec', 'KM.C03.pdOf_ne_nil', 'KM.C03.C03_element', 'KM.C03.C03_single', 'KM.C03.C03_other_verbatim', 'KM.C03.C03_barline', 'KM.C03.C03_grid', 'KM.strLe_trans', 'KM.strLe_antisymm', 'KM.decLe_antisymm', 'KM.Spec.strictSorted_ext']
+EXTRA_MODULES = ['KernProofs.C03Chord']
+THEOREMS = ['KM.C03.elemOut_eq', 'KM.C03.strip_noSep', 'KM.C03.strip_append', 'KM.C03.strip_joinSep_tok', 'KM.C03.strip_joinSep_dec', 'KM.C03.mem_addDecs', 'KM.C03.addDecs_acc_subset', 'KM.C03.mem_addDecs_of_mem', 'KM.C03.nodup_addDecs', 'KM.C03.sorted_decs', 'KM.C03.durSubs_flat', 'KM.C03.durSubs_ok', 'KM.C03.pdOf_sorted', 'KM.C03.pdOf_flat', 'KM.C03.allF_true', 'KM.C03.filter_allF', 'KM.C03.sigs_ok', 'KM.C03.pd_encs_ok', 'KM.C03.strip_withDec', 'KM.C03.pdOf_ne_nil', 'KM.C03.C03_element', 'KM.C03.C03_single', 'KM.C03.C03_other_verbatim', 'KM.C03.C03_barline', 'KM.C03.C03_grid', 'KM.strLe_trans', 'KM.strLe_antisymm', 'KM.decLe_antisymm', 'KM.Spec.strictSorted_ext',
+            'KM.C03.zipNotes_chordWalk', 'KM.C03.strip_joinSpace', 'KM.C03.chordDurs_ok', 'KM.C03.C03_chord', 'KM.C03.C03_cell']
 FINGERPRINTS = ['tokens.NoteRestToken.export', 'tokens.ChordToken.export', 'tokens.SimpleToken.export', 'tokenizers.KernTokenizer.tokenize',
                 'tokenizers.EkernTokenizer.tokenize', 'base_antlr_spine_parser_listener', 'exporter.Exporter.export_string',
                 'exporter.Exporter.append_row', 'exporter.Exporter.export_token', 'importer.Importer']
